@@ -430,6 +430,33 @@ def roundtrip_failure(pose):
     return None
 
 
+def rewrite_failure(pose):
+    """the START pose is written once before the operations and once more after them (it is still the caller's object; results
+    derived from it may be views of its arrays and may have been edited in place): each file holds what the arrays hold at the
+    time of that write - coordinates and confidences, up to the float32 conversion"""
+    from pose_format import Pose
+    import posegen as pg
+    buf = io.BytesIO()
+    try:
+        pose.write(buf)
+        pg.set_memo("empty")
+        q = Pose.read(buf.getvalue())
+    except Exception:
+        return None            # judged elsewhere (C01's loud failures; header objects shared with and edited by derived poses)
+    try:
+        d32 = np.asarray(values_of(pose), dtype=np.float32)
+        c32 = np.asarray(conf_of(pose), dtype=np.float32)
+        if values_of(q).shape != d32.shape or conf_of(q).shape != c32.shape:
+            return None
+        if not np.array_equal(values_of(q), d32, equal_nan=True):
+            return "coordinates written are not the coordinates the arrays hold"
+        if not np.array_equal(conf_of(q), c32, equal_nan=True):
+            return "confidences written are not the confidences the arrays hold"
+    except Exception:
+        return None
+    return None
+
+
 def _readback_failure(pose, written, state):
     from pose_format import Pose
     import posegen as pg
@@ -479,9 +506,12 @@ def run_case(case):
     """Run one case on the implementation: -> {"out", "ops", "trace", "verdict", "stats"} (all JSON)."""
     stats = {}
     pose = build_start(case)
+    pose0 = pose
     out = {"start": dump(pose), "steps": []}
     trace = []
     verdict = None
+    if backend_of(pose0) == 0:
+        rewrite_failure(pose0)          # first write of the start pose (its result is judged by the final write/read of every case)
     stream = case.get("stream", "valid")
     in_quantifier = inv_failure(pose) is None and len({len(c["format"]) for c in case["comps"]}) == 1
     explicit = case.get("ops")
@@ -540,6 +570,10 @@ def run_case(case):
         f = roundtrip_failure(pose)
         if f is not None:
             verdict = {"what": "final write/read: " + f, "step": len(trace), "key": "roundtrip-" + (ops_done[-1]["op"] if ops_done else "start")}
+    if in_quantifier and verdict is None and backend_of(pose0) == 0 and trace:
+        f = rewrite_failure(pose0)
+        if f is not None:
+            verdict = {"what": "start pose written again after the operations: " + f, "step": len(trace), "key": "rewrite-start-after-" + ops_done[-1]["op"]}
     return {"out": out, "ops": ops_done[:len(trace)], "trace": trace, "verdict": verdict, "stats": stats}
 
 
